@@ -57,6 +57,22 @@ def gen_script(rng, nops=14, kinds=None, tag=''):
                 L.append('write %s %s' % (v, hx(rng.choice(BYTES))))
     if kind == 'mem':
         L.append('fs R mem')
+    elif kind == 'phys':
+        L.append('fs R phys')
+    elif kind == 'altphys':
+        L.append('fs U phys')
+        populate('U', rng.randint(1, 4))
+        v = newvar()
+        L.append('join %s U %s' % (v, hx(rng.choice(['a', 'a/b', 'b']).encode())))
+        if rng.random() < 0.8:
+            L.append('create_dir_all %s' % v)
+        L.append('fs R alt %s' % v)
+    elif kind == 'ovlphys':
+        L.append('fs L0 phys')
+        populate('L0', rng.randint(0, 2))
+        L.append('fs L1 ' + rng.choice(['mem', 'phys']))
+        populate('L1', rng.randint(0, 4))
+        L.append('fs R ovl L0 L1')
     elif kind == 'alt':
         L.append('fs U mem')
         populate('U', rng.randint(1, 4))
@@ -113,6 +129,8 @@ def gen_script(rng, nops=14, kinds=None, tag=''):
                          'metadata', 'read_dir', 'read', 'read_to_string', 'walk_dir', 'is_file', 'is_dir',
                          'create_dir_all', 'remove_dir_all', 'copy_file', 'move_file', 'copy_dir', 'move_dir',
                          'set_time', 'times', 'filename', 'extension', 'parent', 'eq', 'is_root', 'handle'])
+        if op == 'remove_dir_all' and 'ovl' in kind and strs[p] == '':
+            continue      # removing the overlay root creates markers while iterating: outcome depends on hash order
         if op in ('write', 'append'):
             L.append('%s %s %s' % (op, p, hx(rng.choice(BYTES))))
         elif op == 'read':
@@ -122,7 +140,8 @@ def gen_script(rng, nops=14, kinds=None, tag=''):
                 continue        # destination inside the source: documented non-termination
             L.append('%s %s %s' % (op, p, q))
         elif op == 'set_time':
-            L.append('set_time %s %s %d' % (p, rng.choice('cma'), rng.randint(1, 99999)))
+            # (access times of a real filesystem are updated by the kernel on reads: not compared for phys kinds)
+            L.append('set_time %s %s %d' % (p, rng.choice('cm' if 'phys' in kind else 'cma'), rng.randint(1, 99999)))
         elif op == 'parent':
             v = newvar()
             L.append('parent %s %s' % (v, p))
@@ -229,7 +248,11 @@ def run_selftest(prog, seed, nscripts, nops=14, kinds=None, verbose=False):
                 bad = inc
                 break
             outs.append(res['out'])
-        if bad:
+        if bad and all('OUTSIDE-OSM' in b_ for b_ in bad):
+            # the script wandered outside the OS contract model (stated bound): not compared
+            eng += ['%d ORDER-SENSITIVE' % (lineno + i + 1) for i in range(len(b))]
+            order_sensitive += len(b)
+        elif bad:
             incon += bad
             eng += ['%d INCONCLUSIVE %s' % (lineno + i + 1, bad[0]) for i in range(len(b))]
         else:
